@@ -259,6 +259,15 @@ func (x *Exec) mapValAddr(st *State, mk string, mv Value, ksort string, vt types
 	}
 }
 
+// mapSliceVal: the slice stored under key k in a slice-valued map (header words kept in four heaps)
+func (x *Exec) mapSliceVal(st *State, h *HeapView, mk string, mv Value, ksort string, vt types.Type, k string) Value {
+	sel := func(c string) string {
+		t := st.heapTermIn(h, mk+"#val."+c, 1, "(Array "+ksort+" Int)")
+		return fmt.Sprintf("(select (select %s %s) %s)", t, mv.T, k)
+	}
+	return Value{K: VSlice, Arr: sel("arr"), Off: sel("off"), Len: sel("len"), Cap: sel("cap"), Ty: vt}
+}
+
 func (x *Exec) mapLookup(st *State, ins *ssa.Lookup, mv, kv Value) []*State {
 	dom, mk, ksort, vt := x.mapHeaps(st, mv)
 	in := fmt.Sprintf("(select (select %s %s) %s)", dom, mv.T, kv.T)
@@ -268,6 +277,12 @@ func (x *Exec) mapLookup(st *State, ins *ssa.Lookup, mv, kv Value) []*State {
 		z := st.zero(vt)
 		res = Value{K: hv.K, T: fmt.Sprintf("(ite %s %s %s)", in, hv.T, z.T), Ty: vt}
 		st.assumeTypeInv(hv)
+	} else if kindOf(vt) == VSlice {
+		// slice-valued map: the four header words are kept per key; an absent key reads as nil
+		hv := x.mapSliceVal(st, st.heap, mk, mv, ksort, vt, kv.T)
+		st.assumeTypeInv(hv)
+		sel := func(a string) string { return fmt.Sprintf("(ite %s %s 0)", in, a) }
+		res = Value{K: VSlice, Arr: sel(hv.Arr), Off: sel(hv.Off), Len: sel(hv.Len), Cap: sel(hv.Cap), Ty: vt}
 	} else {
 		res = st.fresh(vt, "mapval")
 	}
@@ -306,6 +321,11 @@ func (x *Exec) mapUpdate(st *State, ins *ssa.MapUpdate) []*State {
 		vs := "(Array " + ksort + " " + scalarSort(vk) + ")"
 		h := st.heapTermIn(st.heap, mk+"#val", 1, vs)
 		st.heapSet(mk+"#val", fmt.Sprintf("(store %s %s (store (select %s %s) %s %s))", h, mv.T, h, mv.T, kv.T, vv.T))
+	} else if vk == VSlice && vv.K == VSlice {
+		for _, c := range [][2]string{{"arr", vv.Arr}, {"off", vv.Off}, {"len", vv.Len}, {"cap", vv.Cap}} {
+			h := st.heapTermIn(st.heap, mk+"#val."+c[0], 1, "(Array "+ksort+" Int)")
+			st.heapSet(mk+"#val."+c[0], fmt.Sprintf("(store %s %s (store (select %s %s) %s %s))", h, mv.T, h, mv.T, kv.T, c[1]))
+		}
 	}
 	return []*State{st}
 }
